@@ -105,6 +105,8 @@ class SeqCheck:
                     cfgs = [l for l in body if l.startswith('cfg ')]; ops = [l for l in body if not l.startswith('cfg ')]
                     # a replay of the variant suite lists several buffer types for one history: one history per type
                     for c in cfgs:
+                        # an entry filed under the wrong runner (an async history among the sequential / vmem ones) is left out
+                        if ('kind=async' in c) != (sub == 'async'): continue
                         out.write(f'# corpus {f}\n' + c + '\n' + '\n'.join(ops) + '\n')
             return path
         divs = []
